@@ -2,6 +2,7 @@ import MdkVerif.Model.Lru
 import MdkVerif.Model.MemLru
 import MdkVerif.Proofs.Lru
 import MdkVerif.Proofs.MemLru
+import MdkVerif.Proofs.MemLruVis
 /-
   C10 (and the storage side of C08 / C09) for the memory backend AS IT IS BUILT: nine `lru::LruCache`s of
   `cache_size` entries each plus a per-group message cap (`Model/Lru.lean`, `Model/MemLru.lean`).
@@ -244,5 +245,32 @@ theorem witness_reads_do_not_promote :
     findGroup (MemLru.run s [(.findGroup 1, []), (.findGroupNostr 11, []), (.allGroups, []), (.saveGroup (grp 3 13), [])]).u 1 = none ∧
     findGroup (MemLru.run s [(.saveGroup (grp 1 11), []), (.saveGroup (grp 3 13), [])]).u 1 = some (grp 1 11) ∧
     findGroup (MemLru.run s [(.saveGroup (grp 1 11), []), (.saveGroup (grp 3 13), [])]).u 2 = none := by decide
+
+/-! ### `messages_cache` is write-only, and what a rollback can never touch -/
+
+/-- `messages_cache` (by message id) is written by `save_message` / `invalidate_messages_after_epoch` and read by no
+    trait method: for ALL histories, two backends that differ only in that cache (content, recency order) and in the
+    eviction log give the same observations and still differ only there.  So its capacity, its evictions and the
+    unobservable map order in which `invalidate_messages_after_epoch` promotes its entries cannot matter. -/
+theorem messages_cache_unobservable (ops : List (Op × List Nat)) (a b : MemStore) (h : vis a = vis b) :
+    MemLru.observe a ops = MemLru.observe b ops ∧ vis (MemLru.run a ops) = vis (MemLru.run b ops) := by
+  induction ops generalizing a b with
+  | nil => exact ⟨rfl, h⟩
+  | cons oc os ih =>
+    obtain ⟨o, ch⟩ := oc
+    obtain ⟨h1, h2⟩ := vis_step a b h o ch
+    obtain ⟨i1, i2⟩ := ih _ _ h2
+    exact ⟨by simp only [MemLru.observe, h1, i1], i2⟩
+
+/-- C09's frame, the part that survives beyond the capacities: whatever the fill level and whatever a rollback
+    evicts, it never changes a stored message, a dedup record, a welcome or a processed-welcome record, nor the
+    recency order of their caches (what it CAN evict beyond the capacity: other groups' records, relay sets and
+    exporter secrets — `witness_rollback_evicts_other_group`) -/
+theorem rollback_keeps_messages_and_records (s : MemStore) (hb : s.u.backend = .mem) (gid name : Nat) (ch : List Nat)
+    (s' : MemStore) (h : MemLru.snapRollback s gid name ch = some s') :
+    s'.u.msgs = s.u.msgs ∧ s'.u.pms = s.u.pms ∧ s'.u.welcomes = s.u.welcomes ∧ s'.u.pws = s.u.pws ∧
+    s'.qMsgGroups = s.qMsgGroups ∧ s'.qPms = s.qPms ∧ s'.qWelcomes = s.qWelcomes ∧ s'.qPws = s.qPws := by
+  have f := rframe_snapRollback s hb gid name ch s' h
+  exact ⟨f.msgs, f.pms, f.welcomes, f.pws, f.q1, f.q2, f.q3, f.q4⟩
 
 end MdkVerif.Props.C10Lru
